@@ -55,6 +55,8 @@ type Node struct {
 	Link     string // connected | disconnected
 	Loading  bool
 	LinkDown bool // master_link_status:down in INFO
+	Short    bool // render a line with too few columns
+	Migr     bool // append a migration marker column
 	ln       *net.TCPListener
 	Conns    []*NodeConn
 	nconn    int
@@ -73,7 +75,10 @@ type Cluster struct {
 	SlotNum map[string]int    // abstract slot name -> slot number
 	// TopoText, when set, overrides the CLUSTER NODES text served in auto mode.
 	TopoText func() string
-	Writing  int32 // background writes of large replies still in progress
+	tagMu    sync.Mutex
+	slotTag  []string
+	RawTopo  []byte // when non-nil, sent verbatim as the reply to CLUSTER NODES (unusable replies)
+	Writing  int32  // background writes of large replies still in progress
 	// Boot: CLUSTER NODES is auto-answered even when cfg.ScriptTopo (used during bootstrap)
 	Boot bool
 	free bool
@@ -182,6 +187,39 @@ func (cl *Cluster) buildTags() {
 	}
 }
 
+// TagForSlot returns a hash tag whose key slot is exactly n (slot names of the form "#n").
+func (cl *Cluster) TagForSlot(n int) string {
+	cl.tagMu.Lock()
+	defer cl.tagMu.Unlock()
+	if cl.slotTag == nil {
+		cl.slotTag = make([]string, 16384)
+		found := 0
+		for i := 0; found < 16384 && i < 2000000; i++ {
+			tag := fmt.Sprintf("s%d", i)
+			s := respx.KeySlot([]byte("{" + tag + "}"))
+			if cl.slotTag[s] == "" {
+				cl.slotTag[s] = tag
+				found++
+			}
+		}
+	}
+	return cl.slotTag[n]
+}
+
+// TagOfName resolves an abstract slot name: a letter name from the dictionary, or "#n" for slot number n.
+func (cl *Cluster) TagOfName(name string) string {
+	if strings.HasPrefix(name, "#") {
+		n, _ := strconv.Atoi(name[1:])
+		tag := cl.TagForSlot(n % 16384)
+		cl.mu.Lock()
+		cl.SlotOf[tag] = name
+		cl.SlotNum[name] = n % 16384
+		cl.mu.Unlock()
+		return tag
+	}
+	return cl.TagOf[name]
+}
+
 func (cl *Cluster) Node(name string) *Node { return cl.byName[name] }
 
 func (cl *Cluster) NodeByAddr(addr string) *Node {
@@ -220,6 +258,9 @@ func (cl *Cluster) topoLine(n *Node) string {
 	if n.Flags != "" {
 		flags = n.Flags
 	}
+	if n.Short {
+		return fmt.Sprintf("%s %s %s\n", n.Id, n.Addr, flags)
+	}
 	master := "-"
 	if n.Role == "slave" {
 		if mn := cl.byName[n.MasterOf]; mn != nil {
@@ -236,6 +277,9 @@ func (cl *Cluster) topoLine(n *Node) string {
 			} else {
 				line += fmt.Sprintf(" %d-%d", r[0], r[1])
 			}
+		}
+		if n.Migr {
+			line += " [93-<-292f8b365bb7edb5e285caf0b7e6ddc7265d2f4f]"
 		}
 	}
 	return line + "\n"
@@ -518,6 +562,10 @@ func (cl *Cluster) autoLocked(nc *NodeConn, late bool) {
 			nc.c.Write([]byte("+OK\r\n"))
 			continue
 		}
+		if cl.RawTopo != nil {
+			nc.c.Write(cl.RawTopo)
+			continue
+		}
 		s := cl.DefaultTopo()
 		if cl.TopoText != nil {
 			s = cl.TopoText()
@@ -780,5 +828,66 @@ func (cl *Cluster) Close() {
 		for _, nc := range cs {
 			nc.c.Close()
 		}
+	}
+}
+
+// Publish makes the nodes answer CLUSTER NODES (and INFO) according to desc from now on. Nodes not mentioned
+// are left out of the description. reply selects an unusable reply instead: "err", "nil", "ok", "big", "empty".
+func (cl *Cluster) Publish(desc []NodeDesc, reply string) {
+	cl.mu.Lock()
+	defer cl.mu.Unlock()
+	for _, n := range cl.Nodes {
+		n.Flags = "absent"
+	}
+	for _, d := range desc {
+		n := cl.byName[d.Name]
+		if n == nil {
+			continue
+		}
+		role := d.Role
+		n.Role = role
+		if role == "none" {
+			n.Role = "master"
+		}
+		n.MasterOf = d.MasterOf
+		n.Ranges = d.Ranges
+		var fl []string
+		if role != "none" {
+			fl = append(fl, role)
+		} else {
+			fl = append(fl, "myself")
+		}
+		if d.Fail {
+			fl = append(fl, "fail")
+		}
+		if d.Handshake {
+			fl = append(fl, "handshake")
+		}
+		if d.NoAddr {
+			fl = append(fl, "noaddr")
+		}
+		n.Flags = strings.Join(fl, ",")
+		n.Link = "connected"
+		if !d.LinkOK {
+			n.Link = "disconnected"
+		}
+		n.Loading = d.Loading
+		n.LinkDown = d.MLinkDown
+		n.Short = d.Short
+		n.Migr = d.Migrating
+	}
+	switch reply {
+	case "err":
+		cl.RawTopo = []byte("-ERR This instance has cluster support disabled\r\n")
+	case "nil":
+		cl.RawTopo = []byte("$-1\r\n")
+	case "ok":
+		cl.RawTopo = []byte("+OK\r\n")
+	case "empty":
+		cl.RawTopo = []byte("$0\r\n\r\n")
+	case "big":
+		cl.RawTopo = respx.Bulk(strings.Repeat(cl.DefaultTopo(), 1+163840/(len(cl.DefaultTopo())+1)) + cl.DefaultTopo())
+	default:
+		cl.RawTopo = nil
 	}
 }
